@@ -104,7 +104,8 @@ TypeRows == {
   OtherRow("constraint_ode_ts0",  "ode",      "type", Facts, [wrong_type |-> "raise"]),
   OtherRow("constraint_ode_ts1",  "ode",      "type", Facts, [wrong_type |-> "raise"]),
   OtherRow("constraint_residual", "residual", "type", Facts, [wrong_type |-> "raise"]),
-  \* lift orders: not an integer; outside 0 .. (number of Taylor coefficients - order of the description)
+  \* lift orders: not an integer; outside 0 .. (number of Taylor coefficients - 1 - order of the ODE), i.e. every lifted
+  \* constraint whose highest output coefficient is not part of the state
   OtherRow("jet_lift", "lift_by", "type", Facts, [wrong_dtype |-> "raise", wrong_type |-> "raise", too_small |-> "raise", too_large |-> "raise"]),
   \* the time-series loss needs the smoothing posterior (a MarkovSequence), not marginals
   OtherRow("loss_lml_timeseries", "posterior", "type", Facts, [wrong_type |-> "raise"])
